@@ -106,3 +106,17 @@ package parentpb
 //@   ensures [removed] forall i int, j int :: 0 <= i && i < len(childOf(value).Traits) && 0 <= j && j < len(traitName) ==> childOf(value).Traits[i].Name != traitName[j]
 //@   ensures [absent-noop] (forall i int, j int :: 0 <= i && i < old(len(childOf(old).Traits)) && 0 <= j && j < len(traitName) ==> old(childOf(old).Traits[i].Name) != traitName[j]) ==> len(childOf(value).Traits) == old(len(childOf(old).Traits))
 //@   replay ParentRemoveAbsent()
+//@
+//@ // C15: page tokens are written and read with the same base64 alphabet (the chain-of-pages argument assumes that a
+//@ // token handed out is accepted again; the codec itself is a library assumption)
+//@ property C15
+//@ func encodePageToken(pageToken) (res, err)
+//@   inline
+//@   track EncodeToString
+//@   ensures [alphabet] calls(EncodeToString) > old(calls(EncodeToString)) ==> lastarg(EncodeToString, 0) == base64.StdEncoding
+//@   ensures [encoded] pageToken != nil && err == nil ==> calls(EncodeToString) == old(calls(EncodeToString)) + 1
+//@ func decodePageToken(token, pageToken) (err)
+//@   inline
+//@   track DecodeString
+//@   ensures [alphabet] calls(DecodeString) > old(calls(DecodeString)) ==> lastarg(DecodeString, 0) == base64.StdEncoding
+//@   ensures [decoded] token != "" ==> calls(DecodeString) == old(calls(DecodeString)) + 1
